@@ -174,13 +174,46 @@ func execC20(c C20Case) *Failure {
 	case <-time.After(20 * time.Second):
 		return TimingFailf("C20/workload-stuck", "%s: the client workload did not finish", c.Mode)
 	}
-	// session termination and Close race with nothing else here; they are part of the workload
+	// session termination and Close come while other goroutines still use the client (calls, state queries)
+	var lwg sync.WaitGroup
+	lstop := make(chan struct{})
+	for g := 0; g < 3; g++ {
+		lwg.Add(1)
+		go func(g int) {
+			defer lwg.Done()
+			for i := 0; ; i++ {
+				select {
+				case <-lstop:
+					return
+				default:
+				}
+				ctx, cancel := context.WithTimeout(context.Background(), time.Second)
+				switch (g + i) % 3 {
+				case 0:
+					req := &mcp.CallToolRequest{}
+					req.Params.Name = "echo"
+					req.Params.Arguments = map[string]interface{}{"nonce": fmt.Sprintf("late-g%di%d", g, i), "size": 1, "lat": 0}
+					cl.CallTool(ctx, req)
+				case 1:
+					_ = cl.GetState()
+				case 2:
+					cl.ListTools(ctx, &mcp.ListToolsRequest{})
+				}
+				cancel()
+			}
+		}(g)
+	}
+	time.Sleep(500 * time.Microsecond)
 	if sc, ok := cl.(mcp.SessionClient); ok && c.Mode.Stateful() {
 		ctx, cancel := context.WithTimeout(context.Background(), time.Second)
 		sc.TerminateSession(ctx)
 		cancel()
 	}
+	time.Sleep(300 * time.Microsecond)
 	cl.Close()
+	time.Sleep(300 * time.Microsecond)
+	close(lstop)
+	lwg.Wait()
 	return nil
 }
 
